@@ -319,6 +319,7 @@ def build_trace(job):
     # that the indices used below stay what they were)
     kk = rng.choice([49, 53, 63]), rng.choice([64, 100, 128]), rng.choice([200, 254, 255])
     specials += [(1 << k) - 1 for k in kk] + [1 << kk[0], (1 << kk[1]) + 1, (1 << 53) - 1]
+    specials += [rng.getrandbits(4200) | (1 << 4199)]            # far beyond the group order (recursion depth ~4200)
     if not quick:
         specials += [(1 << k) - 1 for k in (49, 50, 52, 53, 63, 64, 127, 255, 256)] + [1 << 64, (1 << 255) + 1]
     muls = []
